@@ -1,0 +1,17 @@
+//go:build verif
+
+package file
+
+// Contracts for the verification harness under /verif (comment-only file).
+//
+// C19: createNew may re-open an existing unsealed file (restart inside the retention
+// interval).  The descriptor is opened for appending (O_APPEND = 1024 on linux) and
+// may create the file (O_CREATE = 64): what earlier batches wrote is never
+// overwritten in place.  (The flag word is a compile-time constant; the two accepted
+// values are O_CREATE|O_APPEND with O_RDWR = 1090 or O_WRONLY = 1089.)
+
+//@ func (*Plugin).createNew
+//@   option allow-exit yes
+//@   callee OpenFile(name, flag, perm) (f, err)
+//@     requires flag == 1090 || flag == 1089
+//@     pure
